@@ -10,7 +10,7 @@
 (* Error states are leaves: no extension of the input can change the        *)
 (* outcome.                                                                 *)
 (***************************************************************************)
-EXTENDS JsonParser, JsonGrammar, CodeMapNav, TLC, Json
+EXTENDS JsonParser, JsonGrammar, CodeMapNav, TLC, Json, SequencesExt
 
 CONSTANTS Alphabet, MaxLen, Prefix, Suffix, OptSet, DumpOn
 
@@ -42,13 +42,22 @@ TokExp == LET inp == Prefix \o w \o Suffix
           IF kind = "none" THEN [kind |-> "none"]
           ELSE [kind |-> kind, out |-> TokenOutcome(TokenRun(kind, inp, o))]
 
+\* Error states are absorbing (Step leaves them unchanged), so an outcome that is decided at a character INSIDE
+\* the input is the outcome of every extension of the input as well.  The tree does not enumerate those extensions
+\* (error states are leaves); instead each such vector carries the alphabet, and the harness requires the SAME
+\* outcome from the real parser for the input followed by each token (and, sampled, by each pair of tokens).
+AlphaSeq == SetToSeq(Alphabet)
+DecidedInside(f) == f.mode = "err" /\ (f.err.kind = "surrogate" \/ (f.err.kind = "unexpected" /\ f.err.ch # EOF))
+ErrorsAbsorb == LET f == Final IN
+  DecidedInside(f) => \A tok \in Alphabet : Outcome(Finish(RunFrom(f, tok, 1, o), o)) = Outcome(f)
+
 Dump == DumpOn =>
   LET f == Final IN
   IF f.mode = "done"
   THEN PrintT(ToJson([k |-> "parse", w |-> Prefix \o w \o Suffix, o |-> <<o.trunc, o.inval>>,
                       out |-> Outcome(f), tok |-> TokExp, nav |-> Nav(f.val)]))
   ELSE PrintT(ToJson([k |-> "parse", w |-> Prefix \o w \o Suffix, o |-> <<o.trunc, o.inval>>,
-                      out |-> Outcome(f), tok |-> TokExp]))
+                      out |-> Outcome(f), tok |-> TokExp, ext |-> IF DecidedInside(f) THEN AlphaSeq ELSE <<>>]))
 
 -----------------------------------------------------------------------------
 \* Invariants (design level)
